@@ -189,8 +189,12 @@ pub enum Ct {
     Upper,
     WithParam,
     OtherRoutes,
+    /// the right media type with a structured-syntax suffix (`+json`): a different media type
+    Suffixed,
+    /// the right media type with trailing characters / a prefix of it
+    NearMiss,
 }
-const CTS: [Ct; 6] = [Ct::Exact, Ct::Absent, Ct::Wrong, Ct::Upper, Ct::WithParam, Ct::OtherRoutes];
+const CTS: [Ct; 8] = [Ct::Exact, Ct::Absent, Ct::Wrong, Ct::Upper, Ct::WithParam, Ct::OtherRoutes, Ct::Suffixed, Ct::NearMiss];
 
 #[derive(Clone, Copy, Debug, PartialEq, Eq, Hash)]
 pub enum Body {
@@ -265,7 +269,7 @@ impl Gram {
         }
         if self.is_post_route() {
             match self.ct {
-                Ct::Absent | Ct::Wrong | Ct::OtherRoutes => return Class::MustRefuse,
+                Ct::Absent | Ct::Wrong | Ct::OtherRoutes | Ct::Suffixed | Ct::NearMiss => return Class::MustRefuse,
                 Ct::Exact => {}
                 _ => amb = true,
             }
@@ -345,6 +349,8 @@ impl Gram {
                 Ct::Upper => r = r.header("Content-Type", &own_ct.to_uppercase()),
                 Ct::WithParam => r = r.header("Content-Type", &format!("{own_ct}; charset=utf-8")),
                 Ct::OtherRoutes => r = r.header("Content-Type", other_ct),
+                Ct::Suffixed => r = r.header("Content-Type", &format!("{own_ct}+{}", if rng.pct(50) { "json" } else { "zstd" })),
+                Ct::NearMiss => r = r.header("Content-Type", &if rng.pct(50) { format!("{own_ct}s") } else { own_ct[..own_ct.len() - 1].to_string() }),
             }
             match self.body {
                 Body::Empty => {}
